@@ -41,6 +41,7 @@ for k, v in PENDING.items():
 na.sort(key=lambda x: x["property_id"])
 hooks = subprocess.run(["git", "-C", "/repo", "log", "--format=%h %s"], capture_output=True, text=True).stdout.splitlines()
 hook_commits = [l.split()[0] for l in hooks if l.split(" ", 1)[1].startswith("verif hook")]
+fix_commits = [l for l in hooks if l.split(" ", 1)[1].startswith("fix:")]
 m = {
  "version": 1,
  "setup_cmd": "./setup.sh",
@@ -49,7 +50,7 @@ m = {
   "enable": "go1.26.8 test -c -tags 'verif stdjson gjson' (GOTOOLCHAIN=local GOFLAGS=-mod=mod GOPROXY=off); stdjson/gjson are the repository's own tags that replace sonic, which does not compile on Go 1.26",
   "baseline_off_cmd": "./baseline_off.sh",
   "source_commits": hook_commits,
-  "add_only": True,
+  "add_only": False,
  },
  "engines": [
   {"name": "wire-sim", "path": "sim/", "serves_properties": [p for p in props if p in CLAIMED and CLAIMED[p]["engine"] == "wire-sim"], "kind_free_text": "deterministic simulation: one real hertz goroutine per simulated connection on the real standard.Conn over a SimConn, scripted peer state machines, seeded baton scheduler deciding deliveries/fragmentation/faults, synctest fake clock"},
@@ -57,7 +58,7 @@ m = {
  ],
  "checks": checks,
  "not_applicable": na,
- "notes": "One technique for all claimed checks: deterministic simulation with fault injection (seeded search over schedules and fault sequences, replay files, shrinking). See DESIGN.md. known_findings.json lists genuine defects (fixed ones are replayed as regression witnesses).",
+ "notes": "hooks.add_only is false because of exactly one line: hook H3 turns `if t.listenConfig != nil {` in standard.transport.serve into `if ln, lerr, ok := verifListen(...); ok {...} else if t.listenConfig != nil {` (verifListen returns ok=false without the verif tag); every other hook line is an addition. " + str(len(fix_commits)) + " unguarded fix: commits repair genuine defects (known_findings.json). One technique for all claimed checks: deterministic simulation with fault injection (seeded search over schedules and fault sequences, replay files, shrinking). See DESIGN.md. known_findings.json lists genuine defects (fixed ones are replayed as regression witnesses).",
 }
 json.dump(m, open("/verif/MANIFEST.json", "w"), indent=1)
 print("claimed:", [c["property_id"] for c in checks])
